@@ -276,14 +276,102 @@ func bitAt(v bits.Vec, i int) string {
 	return v[i].String()
 }
 
-// c01Methods: WriteK -> out.WriteBytes(ToBytesK(b)); ReadK -> in.ReadBytes(N) + ToK(b, 0).
+// c01Methods: each WriteK appends exactly the big-endian bytes of its argument, each ReadK consumes
+// exactly the bytes of its width and returns their big-endian (or, for the *Little methods,
+// little-endian) value, sign- or zero-extended. Decided by interpreting the method body (E2) with the
+// stream's WriteBytes/WriteByte/ReadBytes standing for the wire; the spelling rule
+// (`out.WriteBytes(ToBytesK(b))`, `ToK(in.ReadBytes(N), 0)`) is the fallback for a body outside
+// the interpretable fragment.
 func c01Methods(p *core.Program, r *core.Report) {
-	for name, want := range c01WriteMethods {
+	isStream := func(info *types.Info, call *ast.CallExpr, typ string) string {
+		sel, ok := ast.Unparen(call.Fun).(*ast.SelectorExpr)
+		if !ok {
+			return ""
+		}
+		fn, _ := info.Uses[sel.Sel].(*types.Func)
+		if fn == nil {
+			return ""
+		}
+		if n := core.RecvNamed(fn); n == nil || n.Obj().Name() != typ || n.Obj().Pkg() == nil || core.RelPkg(n.Obj().Pkg().Path()) != "io" {
+			return ""
+		}
+		return fn.Name()
+	}
+	wnames := make([]string, 0, len(c01WriteMethods))
+	for k := range c01WriteMethods {
+		wnames = append(wnames, k)
+	}
+	sort.Strings(wnames)
+	for _, name := range wnames {
+		want := c01WriteMethods[name]
 		fi := p.Method("io", "DataOutputX", name)
 		c := "io.(*DataOutputX)." + name
 		if fi == nil {
 			r.Undec("C01.methods", c, "-", "method not found")
 			continue
+		}
+		pos := p.Pos(fi.Decl.Pos())
+		// semantic
+		if n, ok := c01Writers[want]; ok && fi.Decl.Type.Params.NumFields() == 1 && len(fi.Decl.Type.Params.List[0].Names) == 1 {
+			var wire []bits.Vec
+			ip := &bits.Interp{P: p}
+			ip.CallHook = func(f *bits.Frame, call *ast.CallExpr) (*bits.Value, bool) {
+				switch isStream(f.Info(), call, "DataOutputX") {
+				case "WriteBytes":
+					if len(call.Args) != 1 {
+						return nil, false
+					}
+					v := ip.Eval(f, call.Args[0], nil)
+					if v == nil {
+						return nil, true
+					}
+					if v.B == nil || v.B.Len < 0 {
+						ip.Fail(f, call, "appends bytes of unknown length")
+						return nil, true
+					}
+					for i := 0; i < v.B.Len; i++ {
+						wire = append(wire, v.B.Get(i))
+					}
+					return &bits.Value{V: bits.Zero(1)}, true
+				case "WriteByte":
+					if len(call.Args) != 1 {
+						return nil, false
+					}
+					v := ip.Eval(f, call.Args[0], types.Typ[types.Uint8])
+					if v == nil {
+						return nil, true
+					}
+					if v.V == nil {
+						ip.Fail(f, call, "appends a non-integer byte")
+						return nil, true
+					}
+					wire = append(wire, bits.Convert(v.V, false, 8))
+					return &bits.Value{V: bits.Zero(1)}, true
+				}
+				return nil, false
+			}
+			if _, why := ip.Call(fi, nil); why == "" {
+				pn := fi.Decl.Type.Params.List[0].Names[0]
+				w := typeBits(fi.Pkg.TypesInfo.Defs[pn].Type())
+				in := bits.Input(pn.Name, w)
+				detail := ""
+				if len(wire) != n {
+					detail = fmt.Sprintf("appends %d bytes, want %d", len(wire), n)
+				}
+				for k := 0; k < n && detail == ""; k++ {
+					wantV := make(bits.Vec, 8)
+					for j := 0; j < 8; j++ {
+						if bi := 8*(n-1-k) + j; bi < w {
+							wantV[j] = in[bi]
+						}
+					}
+					if !bits.Equal(wire[k], wantV) {
+						detail = fmt.Sprintf("byte %d on the wire is %s, big-endian wants %s", k, wire[k], wantV)
+					}
+				}
+				r.Check(detail == "", "C01.methods", c, pos, fmt.Sprintf("appends the %d big-endian bytes of its argument, for all inputs", n), detail)
+				continue
+			}
 		}
 		var callee string
 		nWriteBytes := 0
@@ -300,7 +388,13 @@ func c01Methods(p *core.Program, r *core.Report) {
 			}
 			return true
 		})
-		r.Check(nWriteBytes == 1 && callee == want, "C01.methods", c, p.Pos(fi.Decl.Pos()), "appends "+want+"(v)", fmt.Sprintf("appends %s (x%d), want exactly one %s", callee, nWriteBytes, want))
+		if nWriteBytes == 1 && callee == want {
+			r.OK("C01.methods", c, pos, "appends "+want+"(v)")
+		} else if _, isNum := c01Writers[want]; isNum {
+			r.Undec("C01.methods", c, pos, fmt.Sprintf("the body is outside the bit-interpretable fragment and is not the plain form: appends %s (x%d), plain form is exactly one %s", callee, nWriteBytes, want))
+		} else {
+			r.Viol("C01.methods", c, pos, fmt.Sprintf("appends %s (x%d), want exactly one %s", callee, nWriteBytes, want))
+		}
 	}
 	names := make([]string, 0, len(c01ReadMethods))
 	for k := range c01ReadMethods {
@@ -315,7 +409,43 @@ func c01Methods(p *core.Program, r *core.Report) {
 			r.Undec("C01.methods", c, "-", "method not found")
 			continue
 		}
+		pos := p.Pos(fi.Decl.Pos())
 		info := fi.Pkg.TypesInfo
+		// semantic
+		if spec, has := c01Readers[want.dec]; has && spec.n == want.n {
+			consumed := 0
+			cells := map[int]bits.Vec{}
+			ip := &bits.Interp{P: p}
+			ip.CallHook = func(f *bits.Frame, call *ast.CallExpr) (*bits.Value, bool) {
+				if isStream(f.Info(), call, "DataInputX") != "ReadBytes" || len(call.Args) != 1 {
+					return nil, false
+				}
+				v := ip.Eval(f, call.Args[0], nil)
+				if v == nil {
+					return nil, true
+				}
+				k, ok := bits.ConstOf(v.V)
+				if !ok || k > 64 {
+					ip.Fail(f, call, "reads a number of bytes that is not a constant")
+					return nil, true
+				}
+				b := &bits.Bytes{Name: "wire", Cells: cells, Len: int(k), Input: true, Shift: consumed, NonNil: true}
+				consumed += int(k)
+				return &bits.Value{B: b}, true
+			}
+			if res, why := ip.Call(fi, nil); why == "" && res != nil && res.V != nil && !res.V.HasTop() {
+				wantV := bigEndianSpec(spec, len(res.V), "wire")
+				detail := ""
+				if consumed != want.n {
+					detail = fmt.Sprintf("consumes %d bytes, want %d", consumed, want.n)
+				} else if !bits.Equal(res.V, wantV) {
+					d := firstDiff(res.V, wantV)
+					detail = fmt.Sprintf("the value returned differs from the %d-byte %s specification at bit %d: got %s want %s", spec.n, endian(spec), d, bitAt(res.V, d), bitAt(wantV, d))
+				}
+				r.Check(detail == "", "C01.methods", c, pos, fmt.Sprintf("consumes %d bytes and returns their %s value, %s-extended, for all inputs", want.n, endian(spec), ext(spec)), detail)
+				continue
+			}
+		}
 		var widths []int64
 		var decs []string
 		ast.Inspect(fi.Decl.Body, func(n ast.Node) bool {
@@ -344,8 +474,12 @@ func c01Methods(p *core.Program, r *core.Report) {
 				ok = ok && spec.n == want.n
 			}
 		}
-		r.Check(ok, "C01.methods", c, p.Pos(fi.Decl.Pos()), fmt.Sprintf("reads %d bytes, decodes with %s", want.n, want.dec),
-			fmt.Sprintf("reads %v bytes and decodes with %v; want %d bytes and %s", widths, decs, want.n, want.dec))
+		if ok || want.dec == "" {
+			r.Check(ok, "C01.methods", c, pos, fmt.Sprintf("reads %d bytes, decodes with %s", want.n, want.dec),
+				fmt.Sprintf("reads %v bytes and decodes with %v; want %d bytes and %s", widths, decs, want.n, want.dec))
+		} else {
+			r.Undec("C01.methods", c, pos, fmt.Sprintf("the body is outside the bit-interpretable fragment and is not the plain form: reads %v bytes and decodes with %v; plain form is %d bytes and %s", widths, decs, want.n, want.dec))
+		}
 	}
 }
 
